@@ -28,6 +28,9 @@ pub struct Swarm {
     pub second_folder: bool,
     /// modules vanish from / come back to the disk behind the server's back
     pub external: bool,
+    /// plain layout (single spaces, one statement per line, no comments): identifiers of
+    /// different modules then often sit at the very same (line, column)
+    pub aligned: bool,
 }
 
 pub fn swarm(rng: &mut Rng) -> Swarm {
@@ -46,6 +49,7 @@ pub fn swarm(rng: &mut Rng) -> Swarm {
         rename_loops: rng.chance(1, 2),
         second_folder: rng.chance(1, 4),
         external: rng.chance(1, 3),
+        aligned: rng.chance(1, 3),
     }
 }
 
@@ -501,9 +505,9 @@ pub fn plan(seed: u64, prop: &str, run: u64, sem: Sem) -> Plan {
     let mut programs = vec![gen::generate(&mut wl, &cfg)];
     let layout = |wl: &mut Rng, sw: &Swarm| Layout {
         seed: wl.next_u64(),
-        multibyte: sw.multibyte,
+        multibyte: if sw.aligned { 0 } else { sw.multibyte },
         crlf: sw.crlf.clone(),
-        comments: true,
+        comments: !sw.aligned,
     };
     let l0 = layout(&mut wl, &sw);
     let base_files = files_of(&gen::render(&programs[0], &l0));
